@@ -173,6 +173,7 @@ class Rec:
 
 _REC = None
 _CTX_CA = {}                    # id(context) -> "the caller loaded CA A into it" (fake tier)
+_CTX_SYS = set()                # id(context) of contexts on which load_default_certs() was called (fake tier)
 
 
 def describe_ctx(ctx):
@@ -467,14 +468,14 @@ class C07(Prop):
         c["ctx_ca"] = rng.choice([0, 1])
         c["ctx_kind"] = "stdlib" if rng.random() < 0.2 else "native"
         c["ca"] = rng.choice(["none", "fileA", "fileA", "fileA", "dataA", "dataA", "fileB", "fileB"])
-        c["issuer"] = rng.choice(["A", "A", "B"])
+        c["issuer"] = rng.choice(["A", "A", "B"] if tier == "real" else ["A", "A", "B", "S"])
         c["san"] = rng.choice(list(SANS))
         if tier == "real" and c["backend"] == "pyopenssl" and c["ca"] == "dataA":
             # PyOpenSSLContext.load_verify_locations(None, None, cadata) raises "unable to load trusted
             # certificates" before looking at cadata (fails closed; inside ssl_wrap_socket, outside the model)
             c["ca"] = "fileA"
         if c["mode"] in ("ts", "fw"):
-            c["pissuer"] = rng.choice(["A", "A", "B"])
+            c["pissuer"] = rng.choice(["A", "A", "B"] if tier == "real" else ["A", "A", "B", "S"])
             c["psan"] = rng.choice(["match", "match", "mismatch"])
         if c["mode"] == "ts":
             c["pctx"] = rng.choice(["none", "none", "default", "nocheck", "cnone"])
@@ -501,6 +502,14 @@ class C07(Prop):
                     c.update(mode="ts", cert_reqs=cr, pfp=pfp, fp=fp)
                     yield c
         yield from self.core_cases("fake", "ssl")
+        # the OS default store (scripted: it holds CA "S" only) must be consulted iff no CA material at all
+        # was configured and urllib3 built the context itself
+        for ca, ctx, ctx_ca, backend, mode, cr in itertools.product(
+                CA_KINDS, ["none", "default", "nocheck"], [0, 1], ["ssl", "pyopenssl"], MODES, ["unset", "cO", "sN"]):
+            c = dict(DEFAULT_CASE)
+            c.update(ca=ca, ctx=ctx, ctx_ca=ctx_ca, backend=backend, mode=mode, cert_reqs=cr, issuer="S",
+                     pissuer="S" if mode in ("ts", "fw") else "A")
+            yield c
         for c in self.core_cases("fake", "pyopenssl"):
             if c["san"] in ("match", "mismatch") or deep:
                 yield c
@@ -606,6 +615,7 @@ class C07(Prop):
 
         rec = _REC = Rec()
         _CTX_CA.clear()
+        _CTX_SYS.clear()
         saved_ncn = ussl.HAS_NEVER_CHECK_COMMON_NAME
         injected = False
         cur = {}
@@ -663,7 +673,8 @@ class C07(Prop):
                     raise ProxySchemeUnsupported("TLS in TLS requires SSLContext.wrap_bio()")
                 vm = c.verify_mode
                 if vm != ssl.CERT_NONE:
-                    trusted = (cur.get("ca") == issuer) or (_CTX_CA.get(id(c)) and issuer == "A")
+                    trusted = (cur.get("ca") == issuer) or (_CTX_CA.get(id(c)) and issuer == "A") or \
+                        (issuer == "S" and id(c) in _CTX_SYS)
                     if not trusted:
                         raise ssl.SSLCertVerificationError(1, "certificate verify failed: unable to get local issuer certificate")
                 if stdlib and c.check_hostname:
@@ -796,13 +807,21 @@ class C07(Prop):
             net.servers[("origin", 0)] = Server(origin)
             net.servers[(PROXY, p_port)] = Server(proxy)
             net.tls_hook = tls_hook
+            saved_ldc = ssl.SSLContext.load_default_certs
+
+            def load_default_certs(self, *a, **kw):
+                # the scripted OS trust store: it contains CA "S" only (nothing is read from the machine)
+                _CTX_SYS.add(id(self))
+
             with net.installed(fake_tls=True):
                 inner["f"] = ucn.ssl_wrap_socket
                 ucn.ssl_wrap_socket = wrap_recorder
+                ssl.SSLContext.load_default_certs = load_default_certs
                 try:
                     yield net
                 finally:
                     ucn.ssl_wrap_socket = inner["f"]
+                    ssl.SSLContext.load_default_certs = saved_ldc
         return cm()
 
     def real_network(self, lb, inner, wrap_recorder):
@@ -877,7 +896,7 @@ class C07(Prop):
         issuer_o, issuer_p = case["issuer"], case["pissuer"]
 
         def peer_bits(issuer):
-            return f"{int(ca_name == issuer)}0{int(issuer == 'A')}"
+            return f"{int(ca_name == issuer)}{int(issuer == 'S')}{int(issuer == 'A')}"
 
         names = closure([snap.get("host"), th, sh, ah if isinstance(ah, str) else None, pah if isinstance(pah, str) else None])
         rows = []
@@ -922,6 +941,8 @@ class C07(Prop):
             anchors.add("A" if case["ca"] in ("fileA", "dataA") else "B")
         if ctx_shape != "none" and ctx_ca:
             anchors.add("A")
+        if case["ca"] == "none" and ctx_shape == "none" and case["backend"] != "pyopenssl":
+            anchors.add("S")        # nothing configured: the OS default store is what the settings ask for
         name = None
         if eff != "N" and ah is not False and not pinned:
             name = ah or target
